@@ -6,8 +6,9 @@ Independently confirms sub-agent-made breaking changes: for each <seed-dir>/<k>/
 Confirmed changes are copied to /verif/seeded/<PID>-<k>/ with meta.json extended by what was run here."""
 import json, os, shutil, subprocess, sys, time
 pid, sdir = sys.argv[1], sys.argv[2]
-wt = f"/tmp/sc-{pid}"
-log = open(f"/verif/out/seedconfirm_{pid}.log", "w")
+koff = int(sys.argv[3]) if len(sys.argv) > 3 else 0      # numbering offset for later rounds (seeded/<PID>-<k+koff>)
+wt = f"/tmp/sc-{pid}-{os.getpid()}"
+log = open(f"/verif/out/seedconfirm_{pid}_{os.path.basename(sdir.rstrip('/'))}.log", "w")
 def sh(cmd, **kw):
     log.write("$ " + cmd + "\n"); log.flush()
     p = subprocess.run(cmd, shell=True, stdout=subprocess.PIPE, stderr=subprocess.STDOUT, text=True, **kw)
@@ -45,7 +46,7 @@ for k in sorted(os.listdir(sdir)):
            "confirmed": bool(compiled and tests and rc_with not in (0, None) and rc_without == 0), "repo_head": head}
     results[k] = res
     if res["confirmed"]:
-        dst = f"/verif/seeded/{pid}-{k}"
+        dst = f"/verif/seeded/{pid}-{int(k) + koff}"
         shutil.rmtree(dst, ignore_errors=True); os.makedirs(dst)
         for f in ("patch.diff", "demo.cpp"): shutil.copy(f"{d}/{f}", dst)
         meta = json.load(open(f"{d}/meta.json")) if os.path.exists(f"{d}/meta.json") else {}
